@@ -91,6 +91,26 @@ Definition POLICY := "services/server/policy.py".
 Definition rd (func cls f : string) (k : outcome) : outcome :=
   if has_field cls f then k else Crash (attr_err ENGINE func f).
 
+(* ------------------------------------------------------------------ defects still present in the code
+   gen/PieClasses.defect_present records, for every unguarded use this model knows, whether the code under /repo still
+   has it (true) or raises a KmipError there instead (false; a repaired tree).  An unlisted name counts as present. *)
+Definition defect (n : string) : bool :=
+  match assoc_s n defect_present with Some b => b | None => true end.
+
+(* an unguarded use: crashes at `site` while the defect is present, answers a KmipError once repaired *)
+Definition unguarded (n site : string) : outcome := if defect n then Crash site else Done.
+
+(* read `obj.<f>` where a repair turns the missing attribute into "no value" (continuation k_none) *)
+Definition rd_or (n func cls f : string) (k k_none : outcome) : outcome :=
+  if has_field cls f then k else if defect n then Crash (attr_err ENGINE func f) else k_none.
+
+(* _get_attribute_from_managed_object: the repair reads the two attributes certificates lack with a None default *)
+Definition rd_get1 (cls f : string) (k k_none : outcome) : outcome :=
+  if has_field cls f then k
+  else if defect "get-attribute-missing-field"
+          || negb (String.eqb f "cryptographic_algorithm" || String.eqb f "cryptographic_length")
+       then Crash (attr_err ENGINE "_get_attribute_from_managed_object" f) else k_none.
+
 (* ------------------------------------------------------------------ (2) attribute policy queries *)
 Definition q (fname : string) (proj : attr_rule -> bool) (name : string) (k : bool -> outcome) : outcome :=
   match find_rule name with
@@ -239,7 +259,7 @@ Definition set_attribute (t : target) (n : string) (vals : list attr) : target +
       else
         match set_field n, vals with
         | Some f, a :: _ =>
-          rd SET1 (t_cls t) f
+          rd_or "set-attribute-missing-field" SET1 (t_cls t) f
             (let existing_truthy_and_different :=
                if String.eqb f "cryptographic_algorithm" then match t_alg t with Some x => negb (x =? a_val a) | None => false end
                else if String.eqb f "cryptographic_length" then match t_len t with Some x => negb (x =? a_val a) | None => false end
@@ -247,6 +267,7 @@ Definition set_attribute (t : target) (n : string) (vals : list attr) : target +
                else if String.eqb f "operation_policy_name" then match t_policy t with Some x => negb (String.eqb x (a_str a)) | None => false end
                else (* sensitive *) t_sensitive t && negb (a_val a =? 1) in
              if existing_truthy_and_different then Done else Go)
+            Done
         | _, _ => Done
         end)
   with
@@ -400,7 +421,7 @@ Definition h_register (v : version) (otype : Z) (sec : option secret_s) (ta : op
       | inl d =>
         match convert sec with
         | None => Crash "model:convert-table-has-no-entry"
-        | Some (Some site) => Crash site
+        | Some (Some site) => unguarded "register-convert" site
         | Some None =>
           (* the pie class comes from the SECRET's type, not from payload.object_type *)
           match class_of (sec_otype sec) with
@@ -449,7 +470,7 @@ Definition h_derive_key (v : version) (s : store) (cr : cres) (otype : Z) (uids 
          let alg := td_get d "Cryptographic Algorithm" in
          if (otype =? OT_SYMMETRIC_KEY) && (match alg with Some (_ :: _) => false | _ => true end) then Done else
          rd DERIVE (so_class k0) "value"
-         (if negb has_params then Crash (attr_err ENGINE DERIVE "hashing_algorithm") else
+         (if negb has_params then unguarded "derive-no-parameters" (attr_err ENGINE DERIVE "hashing_algorithm") else
           crypto cr
            (if otype =? OT_SYMMETRIC_KEY then
               set_attributes (fresh "SymmetricKey" OT_SYMMETRIC_KEY
@@ -489,10 +510,11 @@ Fixpoint loc_object (o : sobj) (l : list attr) (dates : nat) : outcome :=
       match attr_field (a_name a) with
       | None => loc_object o t dates
       | Some f =>
-        rd GET1 (so_class o) f
+        rd_get1 (so_class o) f
           (if String.eqb (a_name a) "Initial Date" then
              (if (2 <=? dates)%nat then Done else loc_object o t (S dates))
            else if loc_match o a then loc_object o t dates else Go)
+          (loc_object o t dates)
       end)
   end.
 
@@ -558,14 +580,13 @@ Definition h_get (s : store) (cr : cres) (u : option Z) (kft : option Z) (compre
                 if w_attr_names w then Done else
                 if negb (w_no_encoding w) then Done else
                 rd GET (so_class o) "value"
-                (if negb kparams then Crash (attr_err ENGINE GET "block_cipher_mode") else
+                (if negb kparams then unguarded "get-wrap-no-parameters" (attr_err ENGINE GET "block_cipher_mode") else
+                 let keyblock := match assoc_z (so_otype o) core_has_key_block with Some true => true | _ => false end in
+                 if negb keyblock && negb (defect "get-wrap-non-key") then Done else
                  rd GET (so_class k) "value"
                  (crypto cr
                    (build_core o
-                     (match assoc_z (so_otype o) core_has_key_block with
-                      | Some true => Done
-                      | _ => Crash (attr_err ENGINE GET "key_block")
-                      end)))))))
+                     (if keyblock then Done else Crash (attr_err ENGINE GET "key_block"))))))))
            | _ => Done
            end
          | None => Done
@@ -574,20 +595,26 @@ Definition h_get (s : store) (cr : cres) (u : option Z) (kft : option Z) (compre
     | c => c
     end).
 
-(* ---- GetAttributes / GetAttributeList: every read is guarded *)
-Fixpoint get_attrs_loop (v : version) (o : sobj) (names : list string) : outcome :=
+(* ---- GetAttributes / GetAttributeList: every read is guarded; the number of attributes returned matters because
+        a KMIP 2.0 GetAttributes response without any attribute cannot be encoded (the session then answers GENERAL_FAILURE) *)
+Fixpoint get_attrs_count (v : version) (o : sobj) (names : list string) : outcome + nat :=
   match names with
-  | [] => Done
+  | [] => inr 0%nat
   | n :: t => match attrs_listed v o n with
-              | inl c => c
-              | inr _ => get_attrs_loop v o t
+              | inl c => inl c
+              | inr k => match get_attrs_count v o t with inl c => inl c | inr m => inr (k + m)%nat end
               end
   end.
 Definition all_attribute_names : list string := map ar_name attr_rule_table.
-Definition h_get_attributes (v : version) (s : store) (u : option Z) (names : list string) : outcome :=
+Definition ENCODE_GET_ATTRIBUTES := "core/messages/payloads/get_attributes.py:write:InvalidField".
+Definition h_get_attributes (v : version) (s : store) (u : option Z) (names : list string) (is_list : bool) : outcome :=
   with_obj s u (fun o =>
     rd "_get_attributes_from_managed_object" (so_class o) "_object_type"
-       (get_attrs_loop v o (match names with [] => all_attribute_names | _ => names end))).
+       (match get_attrs_count v o (match names with [] => all_attribute_names | _ => names end) with
+        | inl c => c
+        | inr n => if negb is_list && ver_ge v (2,0) && (n =? 0)%nat
+                   then unguarded "get-attributes-empty-response" ENCODE_GET_ATTRIBUTES else Done
+        end)).
 
 (* ---- Activate / Revoke / Destroy: hasattr guards *)
 Definition h_activate (s : store) (u : option Z) : outcome :=
@@ -629,10 +656,11 @@ Definition h_mac (s : store) (cr : cres) (u : option Z) (alg_given data_given : 
       rd MACF (so_class o) "value"
       (if so_value_empty o then Done else
        if negb data_given then Done else
-       rd MACF (so_class o) "state"
+       rd_or "mac-stateless-object" MACF (so_class o) "state"
        (if negb (match so_state o with Some x => x =? ST_ACTIVE | None => false end) then Done else
         rd MACF (so_class o) "cryptographic_usage_masks"
-        (if negb (has_bit (so_mask o) UM_MAC_GENERATE) then Done else crypto cr Done)))
+        (if negb (has_bit (so_mask o) UM_MAC_GENERATE) then Done else crypto cr Done))
+       Done)
     | c => c
     end).
 
@@ -656,7 +684,7 @@ Definition MODIFY := "_process_modify_attribute".
 Definition get_attr_unguarded (o : sobj) (name : string) (k : option (option nat) -> outcome) : outcome :=
   match attr_field name with
   | None => k None
-  | Some f => rd GET1 (so_class o) f (k (Some (attr_list_len o name)))
+  | Some f => rd_get1 (so_class o) f (k (Some (attr_list_len o name))) (k None)
   end.
 
 Definition h_modify1 (v : version) (s : store) (u : option Z) (a : attr) : outcome :=
@@ -675,7 +703,7 @@ Definition h_modify1 (v : version) (s : store) (u : option Z) (a : attr) : outco
                   | inr m => if idx <? Z.of_nat m then Done else Crash (ENGINE ++ ":" ++ MODIFY ++ ":IndexError")%string
                   end
                 else Done
-            | _ => Crash (ENGINE ++ ":" ++ MODIFY ++ ":TypeError")%string     (* len(None) / len(scalar) *)
+            | _ => unguarded "modify-unsupported-multivalued" (ENGINE ++ ":" ++ MODIFY ++ ":TypeError")%string   (* len(None) *)
             end)
         else
           match a_index a with
@@ -744,7 +772,7 @@ Definition delete_from (o : sobj) (name : string) (value : option attr) : outcom
         if negb multi then Done else
         if String.eqb name "Name" then
           rd DEL1 (so_class o) "names"
-             (match value with Some _ => Crash (attr_err ENGINE DEL1 "value") | None => Done end)
+             (match value with Some _ => unguarded "delete-current-name" (attr_err ENGINE DEL1 "value") | None => Done end)
         else if String.eqb name "Application Specific Information" then rd DEL1 (so_class o) "app_specific_info" Done
         else if String.eqb name "Object Group" then rd DEL1 (so_class o) "object_groups" Done
         else Done)))).
@@ -779,8 +807,8 @@ Definition step_raw (v : version) (s : store) (cr : cres) (it : item) : outcome 
   | IDeriveKey otype uids hd hp ta => h_derive_key v s cr otype uids hd hp ta
   | ILocate l => h_locate s l
   | IGet u kft comp w => h_get s cr u kft comp w
-  | IGetAttributes u names => h_get_attributes v s u names
-  | IGetAttributeList u => h_get_attributes v s u []
+  | IGetAttributes u names => h_get_attributes v s u names false
+  | IGetAttributeList u => h_get_attributes v s u [] true
   | IActivate u => h_activate s u
   | IRevoke u c => h_revoke s u c
   | IDestroy u => h_destroy s u
